@@ -3,9 +3,38 @@ from . import layouts as L
 from .model import *
 
 
+TRICKY_NAMES = ["index", "value", "field_value", "temp", "effective_index", "extracted_bits", "mask", "one", "raw", "r#type", "r#fn", "r#match",
+                "self_", "x_", "builder_", "zero", "default_", "new_", "f", "with", "set"]
+
+
+def names_structs():
+    """field names that coincide with local variables / parameters of the generated code, and raw identifiers"""
+    out = []
+    for n in (8, 16, 24, 128):
+        fs = []
+        for j, nm in enumerate(TRICKY_NAMES):
+            k = j % 6
+            if k == 0:
+                f = Field([(j % n, 1)], 'b', family='NAMES')
+            elif k == 1:
+                f = Field([((j * 3) % (n - 3), 3)], 'u', family='NAMES')
+            elif k == 2:
+                f = Field([(0, 2)], 'u', arr=(min(3, n // 2), 2), family='NAMES', stride_explicit=False)
+            elif k == 3:
+                f = Field([(n - 2, 2), (0, 2)], 'u', family='NAMES')
+            elif k == 4:
+                f = Field([(n - 8, 8)], 'i', family='NAMES')
+            else:
+                f = Field([(1, 1), (3, 1)], 'u', arr=(2, 4), family='NAMES')
+            f.name = nm
+            fs.append(f)
+        out.append(Struct(n, fs, family='NAMES', passes=[('full', 'full')] if n <= 16 else [('alpha', 'alpha')], keep_names=True))
+    return out
+
+
 def contig_set(tier):
     """C01 / C02 (+ C16): contiguous fields of every kind."""
-    structs = []
+    structs = names_structs()
     for n in range(1, 17):
         structs += L.pack(n, L.contig(n), 'CONTIG', passes=[('full', 'full')])
     if tier == 'quick':
@@ -452,6 +481,19 @@ def builder_structs(tier):
     sp.append(Struct(32, [], default=0xdeadbeef, family='BLDX', has_builder=True))                 # no writable field at all
     sp.append(Struct(32, [Field([(0, 8)], 'n', access='r', family='BLDX')], default=0x12345678, family='BLDX', has_builder=True))
     out += sp
+    # field names that coincide with parameters / locals of the generated builder code, and raw identifiers
+    fsn = []
+    for j, nm in enumerate(TRICKY_NAMES[:16]):
+        f = Field([(2 * j, 2)], 'u', family='BLDNAMES')
+        f.name = nm
+        fsn.append(f)
+    out.append(Struct(32, fsn, family='BLDNAMES', has_builder=True, keep_names=True))
+    fsn2 = []
+    for j, nm in enumerate(reversed(TRICKY_NAMES[:12])):
+        f = Field([(2 * j, 1)], 'b', arr=(2, 1), family='BLDNAMES', stride_explicit=False) if j % 3 == 0 else Field([(2 * j, 2)], 'u', family='BLDNAMES')
+        f.name = nm
+        fsn2.append(f)
+    out.append(Struct(32, fsn2, default=0xF000_0000, family='BLDNAMES', has_builder=True, keep_names=True))
     # many steps: the chain length / running mask for structs with 9..64 writable fields
     for n, w in ((16, 1), (32, 1), (64, 1), (64, 4), (128, 8), (128, 2), (24, 2), (100, 10)):
         k = n // w
@@ -551,6 +593,15 @@ def debug_structs(tier):
         out.append(Struct(n, [mk() for mk in reversed(cs)], debug=True, twin=True, family='DBGALL', passes=p))
         # no fields at all
         out.append(Struct(n, [], debug=True, twin=True, family='DBG0', passes=p))
+        # field names that coincide with identifiers used inside the generated Debug impl (no raw identifiers: how `r#type`
+        # is printed is not determined by the property)
+        if n >= 8:
+            fsn = []
+            for j, nm in enumerate(["f", "self_", "fmt", "value", "index", "raw", "finish", "field"]):
+                fld = Field([(j % (n - 1), 2)], 'u', family='DBGNAMES')
+                fld.name = nm
+                fsn.append(fld)
+            out.append(Struct(n, fsn, debug=True, twin=True, family='DBGNAMES', passes=p, keep_names=True))
     return out
 
 
